@@ -96,6 +96,7 @@ FILE* stdlog = 0;
 void log_fatal(const char* format, ...)
 {
 	va_list ap;
+	int saved_errno = errno; /* the callers test errno after reporting the error */
 
 	lock_msg();
 
@@ -113,11 +114,14 @@ void log_fatal(const char* format, ...)
 	va_end(ap);
 
 	unlock_msg();
+
+	errno = saved_errno;
 }
 
 void log_error(const char* format, ...)
 {
 	va_list ap;
+	int saved_errno = errno; /* the callers test errno after reporting the error */
 
 	lock_msg();
 
@@ -135,11 +139,14 @@ void log_error(const char* format, ...)
 	}
 
 	unlock_msg();
+
+	errno = saved_errno;
 }
 
 void log_expected(const char* format, ...)
 {
 	va_list ap;
+	int saved_errno = errno; /* the callers test errno after reporting the error */
 
 	lock_msg();
 
@@ -152,11 +159,14 @@ void log_expected(const char* format, ...)
 	}
 
 	unlock_msg();
+
+	errno = saved_errno;
 }
 
 void log_tag(const char* format, ...)
 {
 	va_list ap;
+	int saved_errno = errno; /* the callers test errno after reporting the error */
 
 	lock_msg();
 
@@ -169,6 +179,8 @@ void log_tag(const char* format, ...)
 	}
 
 	unlock_msg();
+
+	errno = saved_errno;
 }
 
 void log_flush(void)
